@@ -142,8 +142,11 @@ def reachable_with_values(starts, efilter=None, nonempty_loops=(), limit=20000):
                 elif pol == 'done' and id(tn) in nonempty and id(tn) not in iterated:
                     continue
         envf2 = frozenset((k, v) for k, v in env.items() if v is not None)
-        for t_ in _succ(n, efilter):
-            work.append((t_, envf2, iterated))
+        is_binding = n.kind == 'stmt' and isinstance(n.ast, ast.Assign)
+        for (t_, k_, tok_) in n.succ:
+            if efilter is None or efilter(n, t_, k_, tok_):
+                # an exception raised by `x = <value>` is raised while the value is computed: x still holds what it held before
+                work.append((t_, envf if (k_ == 'e' and is_binding) else envf2, iterated))
     return list(out.values())
 
 
